@@ -11,6 +11,7 @@ from .enum_f import run_grid
 from .explore_m import World, K
 
 _FACTORY = None
+_VARIANTS = ("A", "B", "C")
 
 
 def cases(ns):
@@ -43,13 +44,15 @@ def fn(case, wit):
         try:
             # (A) cancel, then sweep k levels in one round, for every k (the round's price is set by the LAST
             # level reached, so whether an out-of-order level shows depends on where the sweep stops)
-            for k in range(2, n - 1):
+            for k in (range(2, n - 1) if "A" in _VARIANTS else ()):
                 w = _build(side, perm, _FACTORY)
                 w.apply(("C", c))
                 w.apply(("L", not side, worst, k, None))
                 w.apply(("X",))
                 wit.merge(w.wit)
                 wit.inc("deep_book_cases")
+            if "B" not in _VARIANTS:
+                continue
             # (B) cancel, cancel the two best, then cross the then-best level
             w = _build(side, perm, _FACTORY)
             w.apply(("C", c))
@@ -76,9 +79,10 @@ def fn(case, wit):
     return (side, n)
 
 
-def run(res, factory, tier, seed, ns=None):
-    global _FACTORY
+def run(res, factory, tier, seed, ns=None, variants=("A", "B", "C")):
+    global _FACTORY, _VARIANTS
     _FACTORY = factory
+    _VARIANTS = variants
     ns = ns or ((5, 6, 7) if tier == "quick" else (5, 6, 7, 8))
     ev0, dn0 = res.coverage.get("evaluations", 0), res.coverage.get("distinct_nontrivial", 0)
     run_grid(res, "deep_one_sided_books", list(cases(ns)), fn, seed)
